@@ -33,6 +33,10 @@ class AttrMap:
         self.owner = owner
 
 
+class Reported(Exception):
+    """the engine reports an error (or a warning) instead of writing"""
+
+
 class NSWorld:
     def __init__(self, facts):
         self.facts = facts
@@ -67,7 +71,7 @@ class NSWorld:
         if not body['file'].endswith(('XSLT/XSLTEngineImpl.cpp', 'XSLT/XSLTEngineImpl.hpp')):
             return False
         n = (body.get('fq') or '').split('::')[-1]
-        return n in ('copyNamespaceAttributes', 'addResultNamespace', 'getPendingAttributesImpl')
+        return n in ('copyNamespaceAttributes', 'addResultNamespace', 'getPendingAttributesImpl', 'cloneToResultTree')
 
     def destructor(self, o):
         return None
@@ -99,6 +103,8 @@ class NSWorld:
                     return tgt.name
                 if n == 'getNodeValue':
                     return tgt.value
+                if n == 'getNamespaceURI':
+                    return getattr(tgt, 'uri', '')
                 raise Unsupported('node method ' + n)
             if isinstance(tgt, AttrMap):
                 if n == 'getLength':
@@ -118,8 +124,22 @@ class NSWorld:
                     return self.outer.get(p, 0)
                 if n == 'addResultAttribute':
                     v = [m.ev(x) for x in a]
-                    self.pending.append((v[1], v[2]))
+                    name, value = v[1], v[2]
+                    # what the real addResultAttribute does with a namespace declaration (its body is C01-R3's business): bind the prefix on this element
+                    if isinstance(name, str) and name.startswith('xmlns:'):
+                        pfx = name[6:]
+                        bound = self.local.get(pfx, self.outer.get(pfx))
+                        if bound == value:
+                            return 0
+                        self.local[pfx] = value
+                    self.pending.append((name, value))
                     return 0
+                if n == 'isElementPending':
+                    return 1
+                if n == 'reportDuplicateNamespaceNodeError':
+                    raise Reported('duplicate namespace node')
+                if n == 'warn':
+                    raise Reported('warning')
                 if n == 'addResultNamespaceDecl':
                     p, u = m.ev(a[0]), m.ev(a[1])
                     self.local[p] = u
@@ -132,6 +152,11 @@ class NSWorld:
             a = c.get('args', [])
             if n == 'equals' and len(a) == 2:
                 return int(m.ev(a[0]) == m.ev(a[1]))
+            if n == 'indexOf' and len(a) == 2:
+                s2, ch = m.ev(a[0]), m.ev(a[1])
+                if isinstance(s2, str) and isinstance(ch, int):
+                    i = s2.find(chr(ch))
+                    return i if i >= 0 else len(s2)
             if n == 'startsWith' and len(a) == 2:
                 return int(str(m.ev(a[0])).startswith(str(m.ev(a[1]))))
             if n == 'substring' and len(a) >= 3:
@@ -148,6 +173,14 @@ class NSWorld:
                         if b.vec.items[i] == f[1]:
                             return It(b.vec, i)
                     return e
+        if k == 'OpCall' and c.get('op') in ('=', '+=') and len(c['args']) == 2:
+            t = strip_casts(c['args'][0])
+            cur = m.ev_arg(t)
+            v = m.ev(c['args'][1])
+            if isinstance(v, str) and (cur is None or isinstance(cur, str)):
+                nv = v if c['op'] == '=' else (cur or '') + v
+                m.assign(t, nv)
+                return nv
         if k == 'OpCall' and c.get('op') in ('==', '!=') and len(c['args']) == 2:
             x, y = m.ev(c['args'][0]), m.ev(c['args'][1])
             if isinstance(x, str) and isinstance(y, str):
@@ -239,5 +272,68 @@ def run_rule(res, facts, tier, rid='C01-R10'):
     return r
 
 
+def run_attr_rule(res, facts, tier, rid='C01-R11'):
+    """xsl:copy / xsl:copy-of of an attribute node that is in a namespace: the attribute case of cloneToResultTree"""
+    r = res.rule(rid, 'copying an attribute that is in a namespace leaves a namespace-well-formed element: the attribute case of XSLTEngineImpl::cloneToResultTree interpreted for '
+                 'q:id in urn:q (and an attribute in no namespace) under every combination of the prefix being unbound / bound to urn:q / bound to another URI in the enclosing result '
+                 'elements and on the element being built: afterwards the prefix is bound to urn:q where the attribute stands, no attribute name occurs twice - or an error is '
+                 'reported, and then only when the element itself declares the prefix for another namespace', floor=15)
+    w = NSWorld(facts)
+    cands = [a for a in facts.asts('XSLTEngineImpl::cloneToResultTree', must=False) if a.get('body') is not None and len(a['params']) == 6]
+    if len(cands) != 1:
+        raise AnalysisBroken('XSLTEngineImpl::cloneToResultTree(node, type, ...): %d bodies' % len(cands))
+    fn = cands[0]
+    kfields = {f['n'] for f in (facts.K.get(NS + 'XSLTEngineImpl') or {}).get('fields', [])}
+    choices = (None, 'urn:q', 'urn:other')
+    for (aname, auri), outer_q, local_q in itertools.product((('q:id', 'urn:q'), ('id', '')), choices, choices):
+        attr = SNode('attr', aname, '7', None)
+        attr.uri = auri
+        w.outer = {'q': outer_q} if outer_q else {}
+        w.local = {'q': local_q} if local_q else {}
+        w.pending = [('xmlns:q', local_q)] if local_q else []
+        w.calls = 0
+        this = Obj(NS + 'XSLTEngineImpl', {'m_resultNamespacesStack': 'NSSTACK', 'm_attributeNamesVisited': Vec([]), 'm_executionContext': 'ECTX', 'm_outputContextStack': Vec([1])})
+        for f in kfields:
+            this.fields.setdefault(f, 0)
+        site = 'copy of the attribute %s%s onto an element that %s, inside elements that %s' % (
+            aname, ' (namespace %s)' % auri if auri else ' (no namespace)',
+            'declares q=%s' % local_q if local_q else 'does not declare q', 'bind q to %s' % outer_q if outer_q else 'do not bind q')
+        outcome = None
+        try:
+            m = OMachine(w, {}, this)
+            m.fuel = 20000
+            m.run_body(fn, [attr, w.T['ATTRIBUTE_NODE'], 0, 0, 0, 0], this)
+        except Reported as x:
+            outcome = 'reported: %s' % x
+        except Fault as f:
+            outcome = 'FAULT: %s' % f
+        except Unsupported as u:
+            raise AnalysisBroken('cloneToResultTree outside the interpreted subset (%s): %s' % (site, u))
+        bound = dict(w.outer); bound.update(w.local)
+        names = [nm for nm, v in w.pending]
+        conflict = bool(auri) and local_q is not None and local_q != auri
+        if outcome is not None and outcome.startswith('FAULT'):
+            r.violation(site, outcome, common.file_line(fn))
+        elif outcome is not None:
+            if conflict:
+                r.ok(site, 'an error is reported: the element already declares the prefix for another namespace')
+            else:
+                r.violation(site, 'an error is reported although the attribute can be represented', common.file_line(fn))
+        elif (aname, '7') not in w.pending:
+            r.violation(site, 'the attribute is not added', common.file_line(fn))
+        elif auri and bound.get('q') != auri:
+            r.violation(site, 'the attribute is written as %s but its prefix is %s where it stands: the element is not namespace-well-formed (or the attribute is in another namespace)' %
+                        (aname, 'bound to ' + bound['q'] if bound.get('q') else 'not declared'), common.file_line(fn))
+        elif len(names) != len(set(names)):
+            r.violation(site, 'the element gets two attributes of the same name: %s' % sorted(names), common.file_line(fn))
+        else:
+            r.ok(site, 'bound: %s' % (bound.get('q') or 'nothing'))
+    return r
+
+
 def run_c04_rule(res, facts, tier):
     return run_rule(res, facts, tier, 'C04-R11')
+
+
+def run_c04_attr_rule(res, facts, tier):
+    return run_attr_rule(res, facts, tier, 'C04-R12')
